@@ -97,6 +97,8 @@ def model_scenarios(tier, wd):
     # a node (re)joins an established cluster: the secondary comes back younger, the old primary comes back
     ex.append(elect.Scenario("d2_rejoin_n2", two, p2, [K("n2"), R("n2", 500)], form_sched=f2))
     ex.append(elect.Scenario("d2_rejoin_n1", two, p2, [K("n1"), R("n1", 500)], form_sched=f2))
+    # everybody died, one node comes back alone: its own initial election makes it primary
+    ex.append(elect.Scenario("d2_alone_n2", two, p2, [K("n1"), K("n2"), R("n2", 500)], form_sched=f2))
     walks.append(elect.Scenario("d3_rejoin_n3", three, p3, [K("n3"), R("n3", 500)], form_sched=f3))
     walks.append(elect.Scenario("d3_rejoin_n1", three, p3, [K("n1"), R("n1", 500)], form_sched=f3))
     walks.append(elect.Scenario("d3_restart_live_n2", three, p3, [R("n2", 500)], form_sched=f3))
